@@ -52,7 +52,7 @@ def run(tier, seed):
         mname, x0, k, bound = setups[it % 4]
         cls = ["fssh", "cumulative", "afssh", "ehrenfest", "es"][it % 5]
         if cls == "afssh" and mname == "super": mname, x0, k, bound = setups[0]
-        sd = rng.randrange(2 ** 31); ns = rng.randint(2, 4)
+        sd = rng.randrange(2 ** 31) if it != 1 else 0; ns = rng.randint(2, 4)         # seed 0 is a seed like any other
         C = dict(fssh=mudslide.TrajectorySH, cumulative=mudslide.TrajectoryCum, ehrenfest=mudslide.Ehrenfest, afssh=mudslide.AugmentedFSSH, es=EvenSamplingTrajectory)[cls]
         shared_zl = [rng.random() for _ in range(6)] if cls in ("fssh", "cumulative", "afssh") and it % 2 == 0 else None
         zl_before = list(shared_zl) if shared_zl is not None else None
@@ -144,6 +144,19 @@ def run(tier, seed):
             if not snaps_equal(fresh, again):
                 bad.append(dict(failed="repeating a run with the same model, initial conditions, options and seeds yields identical snapshots (model object %s used by another trajectory before: the run differs from the same run on a fresh model object)" % hname,
                                 case=dict(model=hname, cls=cls_.__name__, first_trajectory=dict(x=xa, p=pa, steps=na), run=dict(x=xb, p=pb, steps=nb_))))
+    # (a3) the caller's initial density matrix is not touched: the same array object handed to two runs gives the same run twice
+    for it, cls_ in enumerate([mudslide.Ehrenfest, mudslide.TrajectorySH, mudslide.TrajectoryCum, mudslide.AugmentedFSSH]):
+        for integ_ in (["exp"] if tier == "quick" else ["exp", "linear-rk4"]):
+            a_ = np.array([complex(rng.gauss(0, 1), rng.gauss(0, 1)) for _ in range(2)]); a_ /= np.linalg.norm(a_)
+            rho0 = np.outer(a_, a_.conj()).astype(np.complex128); keep = rho0.copy(); sd_ = rng.randrange(2 ** 31)
+            kw_ = dict(dt=10.0, max_steps=40, seed_sequence=sd_, zeta_list=[2.0] * 50, electronic_integration=integ_)
+            if cls_ is mudslide.AugmentedFSSH and integ_ != "exp": kw_["augmented_integration"] = "rk4"
+            one_ = trace_dump(cls_(M["simple"](), [-2.0], [11.0], rho0, state0=0, **kw_).simulate())
+            two_ = trace_dump(cls_(M["simple"](), [-2.0], [11.0], rho0, state0=0, **kw_).simulate())
+            res.count("caller-rho0-reused"); res.case(("rho0reuse", cls_.__name__, integ_), True)
+            if not np.array_equal(rho0, keep) or not snaps_equal(one_, two_):
+                bad.append(dict(failed="repeating a run with the same initial conditions yields identical snapshots (the same density-matrix array object handed to two %s runs: the caller's array was %s)" % (cls_.__name__, "modified" if not np.array_equal(rho0, keep) else "left alone but the runs differ"),
+                                case=dict(cls=cls_.__name__, integrator=integ_)))
     # (c) seed keys: generator spawn + even-sampling clones
     for it in range(nrep * 3):
         key = [rng.randrange(5) for _ in range(rng.randint(0, 3))]
